@@ -368,12 +368,14 @@ fn vgrid(rng: &mut Rng, ctx: &mut Ctx) {
 // ------------------------------------------------------------------ incremental API and fragmentation (C11, C12, C06 I/O errors)
 
 /// a reader that hands out its bytes in pieces and can fail at a chosen read call
-pub struct Chunked { data: Vec<u8>, pos: usize, plan: Vec<usize>, call: usize, fail_at: Option<usize> }
-impl Chunked { pub fn new(data: Vec<u8>, plan: Vec<usize>, fail_at: Option<usize>) -> Self { Chunked { data, pos: 0, plan, call: 0, fail_at } } }
+pub struct Chunked { data: Vec<u8>, pos: usize, plan: Vec<usize>, pub call: usize, fail_at: Option<usize>, pub interrupt_every: usize }
+impl Chunked { pub fn new(data: Vec<u8>, plan: Vec<usize>, fail_at: Option<usize>) -> Self { Chunked { data, pos: 0, plan, call: 0, fail_at, interrupt_every: 0 } } }
 impl Read for Chunked {
     fn read(&mut self, buf: &mut [u8]) -> std::io::Result<usize> {
         let call = self.call; self.call += 1;
         if Some(call) == self.fail_at { return Err(std::io::Error::new(std::io::ErrorKind::Other, "injected read error")); }
+        // `ErrorKind::Interrupted` is not an error: `read_exact`, `io::copy`, `read_to_end` retry it
+        if self.interrupt_every > 0 && call % self.interrupt_every == self.interrupt_every - 1 { return Err(std::io::Error::new(std::io::ErrorKind::Interrupted, "EINTR")); }
         if buf.is_empty() { return Ok(0); }
         let k = self.plan[call % self.plan.len()].max(1);
         let n = k.min(buf.len()).min(self.data.len() - self.pos);
@@ -396,6 +398,19 @@ pub fn read_line_chunked(b: &[u8], skip: bool, hash: bool, plan: Vec<usize>) -> 
         match std::panic::catch_unwind(std::panic::AssertUnwindSafe(|| dump::summary(&g))) {
             Ok(mut s) => { if hash { s = s.replace("hashed=none", &format!("hashed=(some {})", b.len())); } s }
             Err(_) => "panic-in-dump".to_string() } } }
+}
+
+/// a sink that accepts at most `k` bytes per `write` call (pipes, sockets), can be interrupted, and can fail at a chosen call
+pub struct ShortSink { pub out: Vec<u8>, k: usize, call: usize, fail_at: Option<usize>, interrupt_every: usize }
+impl ShortSink { pub fn new(k: usize, fail_at: Option<usize>, interrupt_every: usize) -> Self { ShortSink { out: vec![], k: k.max(1), call: 0, fail_at, interrupt_every } } }
+impl std::io::Write for ShortSink {
+    fn write(&mut self, buf: &[u8]) -> std::io::Result<usize> {
+        let call = self.call; self.call += 1;
+        if Some(call) == self.fail_at { return Err(std::io::Error::new(std::io::ErrorKind::Other, "injected write error")); }
+        if self.interrupt_every > 0 && call % self.interrupt_every == self.interrupt_every - 1 { return Err(std::io::Error::new(std::io::ErrorKind::Interrupted, "EINTR")); }
+        let n = self.k.min(buf.len()); self.out.extend_from_slice(&buf[..n]); Ok(n)
+    }
+    fn flush(&mut self) -> std::io::Result<()> { Ok(()) }
 }
 
 fn plans(rng: &mut Rng, len: usize, k: usize) -> (Vec<usize>, String) {
@@ -461,7 +476,12 @@ fn inc(rng: &mut Rng, ctx: &mut Ctx) {
                 if code == 0x39 { break; }
             }
             // what `read` does after the loop
-            if st.bytes_read() < raw_len { let mut junk = vec![0; raw_len - st.bytes_read()]; src.read_exact(&mut junk).map_err(|e| format!("err {}", e))?; }
+            if st.bytes_read() < raw_len {
+                if k % 2 == 1 && r.double_end {
+                    // a driver that keeps handing events to parse_event until the raw element is used up (the duplicated Game End is a declared event)
+                    while st.bytes_read() < raw_len { slippi::de::parse_event(&mut src, &mut st, None).map_err(|e| format!("err {}", e))?;
+                        if st.bytes_read() != src.pos - 15 { fails.push(("C12".into(), format!("after the duplicated Game End: bytes_read {} != raw bytes consumed {}", st.bytes_read(), src.pos - 15))); break; } }
+                } else { let mut junk = vec![0; raw_len - st.bytes_read()]; src.read_exact(&mut junk).map_err(|e| format!("err {}", e))?; } }
             let mut one = [0u8; 1]; src.read_exact(&mut one).map_err(|e| format!("err {}", e))?;
             if one[0] == 0x55 { slippi::de::parse_metadata(&mut src, &mut st, None).map_err(|e| format!("err {}", e))?; }
             if start_json(st.start()) != start_json(&g.start) || end_json(st.end()) != end_json(&g.end) || st.metadata() != &g.metadata || st.gecko_codes() != &g.gecko_codes { fails.push(("C12".into(), "incremental start/end/metadata/gecko differ from the one-shot game".into())); }
@@ -498,6 +518,26 @@ fn frag(rng: &mut Rng, ctx: &mut Ctx) {
                 if hash { if g.hash.as_deref() != Some(xx.as_str()) { c.fail("C11", format!("hash under fragmentation {} (skip={}) is {:?}, XXH3-64 of the file is {}", pname, skip, g.hash, xx)); } } else if g.hash.is_some() { c.fail("C11", "hash reported though not requested"); } } }
         tags.push(format!("plan:{}", pname)); tags.push(format!("skip{}", skip as u8)); tags.push(format!("hash{}", hash as u8)); c.tags = tags;
         ctx.push(c);
+        // the same read over a source that is interrupted (EINTR) every few calls: exact reads retry, the result is the same
+        if k % 3 == 0 {
+            let mut src = Chunked::new(b.clone(), plan.clone(), None); src.interrupt_every = 2 + k % 5;
+            let res = std::panic::catch_unwind(move || slippi::read(src, Some(&read_opts(skip, hash))));
+            let il = match res { Err(_) => "panic".to_string(), Ok(Err(e)) => format!("err {}", e), Ok(Ok(g)) => { let mut s = dump::summary(&g); if hash { s = s.replace("hashed=none", &format!("hashed=(some {})", b.len())); } s } };
+            let mut c = Case::new(reads_cmd(skip, hash, &plan, &b), il.clone()); c.tags = vec!["eintr-read".into()];
+            if il != fl { let m = format!("read over a source interrupted every {} calls differs from the plain read: {} vs {}", 2 + k % 5, &il[..il.len().min(100)], &fl[..fl.len().min(100)]); c.fail("C12", m.clone()); if hash { c.fail("C11", m.clone()); } if skip { c.fail("C10", m.clone()); } c.fail("C06", m); }
+            ctx.push(c);
+        }
+        // writers over sinks that take a few bytes per call / are interrupted: same bytes as into a Vec; an injected error surfaces as Err
+        if k % 3 == 2 && !skip { if let Some(g) = &fg { if g.start.slippi.version <= slippi::MAX_SUPPORTED_VERSION {
+            let want = write_slp(g);
+            let mut sink = ShortSink::new([1usize, 3, 7, 64, 4096][k % 5], None, if k % 2 == 0 { 3 } else { 0 });
+            let got = std::panic::catch_unwind(std::panic::AssertUnwindSafe(|| slippi::write(&mut sink, g).map_err(|e| e.to_string())));
+            let mut c = Case::new(format!("rt {}", hex(&b)), match &want { Ok(o) => format!("ok {}", hex(o)), Err(e) => e.clone() }); c.tags = vec!["short-sink".into()];
+            match (&want, got) { (Ok(o), Ok(Ok(()))) => { if &sink.out != o { let m = format!(".slp written into a sink that takes {} bytes per call differs from the one written into a Vec (lengths {} vs {})", [1usize, 3, 7, 64, 4096][k % 5], sink.out.len(), o.len()); c.fail("C01", m.clone()); c.fail("C17", m); } }
+                (Ok(_), Ok(Err(e))) => { let m = format!(".slp writer fails on a short-writing sink: {}", e); c.fail("C01", m.clone()); c.fail("C17", m); }
+                (_, Err(_)) => { c.fail("C01", ".slp writer panicked on a short-writing sink"); c.fail("C17", ".slp writer panicked on a short-writing sink"); } _ => {} }
+            ctx.push(c);
+        } } }
         // injected I/O errors must surface as errors (a few read calls per file)
         if k % 2 == 0 {
             let total_calls = { let mut probe = Chunked::new(b.clone(), plan.clone(), None); let _ = slippi::read(&mut probe, Some(&o)); probe.call };
@@ -562,6 +602,8 @@ fn tarfmt(rng: &mut Rng, ctx: &mut Ctx) {
     let go = GenOpts { max_frames: 3, newer: false, force: None };
     for k in 0..ctx.n {
         let (mut r, tags) = loop { let kk = k + (rng.next() % 3) as usize * 1000; let (r, t) = gen_replay(rng, kk, &go); if !slots_of(&r.start_block).is_empty() && r.v <= MAXV { break (r, t); } };
+        // a Gecko block is a Gecko block whatever the version says (the reader accepts the events at any version): the blob must be stored
+        if r.gecko.is_none() && k % 5 == 2 { let nb = 1 + (k / 5) % 2; r.gecko = Some((rng.bytes(512 * nb), (nb as u32 - 1) * 512 + [1u32, 200, 512][(k / 10) % 3])); }
         let target = [512usize, 1024, 511, 513, 1536, 0][k % 6];
         if target > 0 {
             // metadata {"k0":"xxx..","k1":..}: JSON length = 2 + sum(len(key)+len(val)+6) - 1; pick string lengths to hit the target
